@@ -227,6 +227,30 @@ def h_expression():
     return Harness("expression", run, spec=Spec())
 
 
+def h_selected_variables():
+    """a selection made at any nesting depth is registered once at the ROOT match (that is what the query reports)."""
+    def run(vm):
+        ctx = vm.ctx
+        M = cls(vm, MATCH, "Match")
+        for depth in (1, 2, 3, 4):
+            chain = []
+            parent = None
+            for i in range(depth):
+                m = vm.alloc(M, {"parent": parent, "selected_variables": PyList([])}, tag=f"match-level-{i}")
+                chain.append(m)
+                parent = m
+            v1 = vm.alloc(cls(vm, SYM, "Variable"), {"_id_": 1}, tag="selected-1")
+            v2 = vm.alloc(cls(vm, SYM, "Variable"), {"_id_": 2}, tag="selected-2")
+            leaf = chain[-1]
+            vm.call_method(leaf, "_update_selected_variables", v1)
+            vm.call_method(leaf, "_update_selected_variables", v2)
+            vm.call_method(leaf, "_update_selected_variables", v1)
+            ok = chain[0].fields["selected_variables"].items == [v1, v2] and all(not m.fields["selected_variables"].items for m in chain[1:])
+            ctx.check("Match._update_selected_variables::registered-once-at-the-root-match-whatever-the-depth", z3.BoolVal(ok),
+                      detail=f"depth {depth}: {[m.fields['selected_variables'].items for m in chain]}")
+    return Harness("selected-variables", run, spec=Spec())
+
+
 def h_canary():
     def run(vm):
         log = []
@@ -241,4 +265,4 @@ def h_canary():
 
 
 def harnesses():
-    return [h_infer_condition(), h_resolve(), h_constructors(), h_expression(), h_canary()]
+    return [h_infer_condition(), h_resolve(), h_constructors(), h_expression(), h_selected_variables(), h_canary()]
